@@ -957,6 +957,7 @@ func Instantiate(s Scenario, r *rand.Rand, targetDefaults ...am.Arg) (*Inst, err
 // InstantiateIn builds all functions of s in the given world.
 func InstantiateIn(w *World, s Scenario, r *rand.Rand, targetDefaults ...am.Arg) (*Inst, error) {
 	in := &Inst{W: w, S: s}
+	var gens []am.ConverterGenFunc
 	seen := map[reflect.Type]bool{}
 	t, err := w.Build(-1, s.Target, r, targetDefaults...)
 	if err != nil {
@@ -990,14 +991,23 @@ func InstantiateIn(w *World, s Scenario, r *rand.Rand, targetDefaults ...am.Arg)
 		case DelGen:
 			f := b.Func
 			trig := types[c.GenTrig]
-			in.ConvArgs = append(in.ConvArgs, am.ConverterGen(func(v am.Value) (*am.Func, error) {
+			gens = append(gens, func(v am.Value) (*am.Func, error) {
 				if v.Type == trig {
 					return f, nil
 				}
 				return nil, nil
-			}))
+			})
 		default:
 			in.ConvArgs = append(in.ConvArgs, am.ConverterFunc(b.Func))
+		}
+	}
+	// several generators travel in ONE ConverterGen(g1, g2, ...) option half
+	// of the time, else in one option each
+	if len(gens) > 1 && r != nil && r.Intn(2) == 0 {
+		in.ConvArgs = append(in.ConvArgs, am.ConverterGen(gens...))
+	} else {
+		for _, g := range gens {
+			in.ConvArgs = append(in.ConvArgs, am.ConverterGen(g))
 		}
 	}
 	return in, nil
